@@ -11,7 +11,8 @@ length 1-2, isolated nodes, self-loops, parallel edges), all policies incl. empt
 processing modes, coarse time steps (overshoot to negative amounts), repeated output fetches with sampling in between,
 grid and graph runs in one process, double finalize, calls on a released engine.  Any abort / sanitizer report is a
 failing input; so is a trajectory that differs bitwise between the plain and the instrumented builds.
-Correspondence: op `lifecycle` on the observed clock (as C09) for the runs of the hardened build.
+Correspondence: op `lifecycle` on the observed clock (as C09) for the runs of the hardened build; op `checked_step` — one
+Iterate() of the checked-access model from each recorded state of real runs (logged draws) gives the next recorded state.
 """
 import json
 import common
@@ -22,7 +23,7 @@ from props import c09
 ID = "C11"
 LEAN_TARGETS = ["Strengths.Props.C11"]
 PROP_FILES = ["Strengths/Props/C11.lean"]
-GEN_GROUPS = ["EngineCpp", "EngineLife"]
+GEN_GROUPS = ["EngineCpp", "EngineLife", "IndexPy"]
 RULE = ("scripts: 3 engines x grid/graph (60 % degenerate shapes) x 4 policies x request styles (incl. empty) x processing modes x "
         "coarse / fine time steps; each driven to completion with explicit samples, two output fetches with a sample in between, "
         "double finalize, then a call on the released engine; run on the plain, the assertion-hardened and (subset) the ASan/UBSan build; "
@@ -96,18 +97,114 @@ def make_job(rng, jid, option, coarse=False, **kw):
     return job
 
 
-def run(ctx):
+def checked_correspondence(ctx):
+    """the checked-access model (Model/Checked*.lean, the object of `engine_never_faults`) computes what the real engine
+    computes: one Iterate() of the model from each recorded state of a real run (logged draws) must give the next recorded
+    state — exactly for the stochastic engines, within 1e-9 of the magnitudes for Euler — and must not report a failed access"""
+    import math
+    import engine_io
+    import strengths as st
     rng = ctx.rng
-    n = ctx.n(120, 3000)
+    M = ctx.model
+    n_scripts = ctx.n(9, 90)
+    for i in range(n_scripts):
+        option = lc.OPTIONS[i % 3]
+        kind = ["grid", "graph"][(i // 3) % 2]
+        S, info = lc.gen_script(rng, option, space_kind=kind, units=False, policy="on_iteration", max_steps=4, dyadic=True,
+                                degenerate=(i % 2 == 1), mode=("none" if option == "euler" else "floor_as_auto"))
+        if option != "euler":
+            S["kw"]["init_state_processing"] = "auto"
+            S["system"]["state"] = [float(int(v)) for v in S["system"]["state"]]
+        S["kw"]["t_sample"] = [0.0]
+        system = st.rdsystem_from_dict(S["system"])
+        script = st.RDScript(system, **S["kw"])
+        try:
+            traj, draws, _ = engine_io.run_recorded(script, option, kind="shim" if option != "euler" else "plain", with_draws=(option != "euler"), max_iter=8)
+        except Exception as ex:  # noqa
+            ctx.count("checked_runs_failed")
+            continue
+        arr = engine_io.system_arrays(script, option != "euler")
+        eng = engine_io.eng_json(arr)
+        ss = engine_io.samples(traj)
+        nsteps = len(ss) - 1
+        if nsteps < 1:
+            continue
+        dt = float(script.time_step.value)
+        ops, exp = [], []
+        if option == "euler":
+            for k in range(nsteps):
+                ops.append({"op": "checked_step", "eng": eng, "x": [rstr(v) for v in ss[k][1]], "option": option, "dt": rstr(dt)})
+                exp.append((ss[k][1], ss[k + 1][1]))
+        elif option == "tauleap":
+            means = M.run([{"op": "tauleap_means", "eng": eng, "x": [rstr(v) for v in ss[k][1]], "dt": rstr(dt)} for k in range(nsteps)])
+            if any(m is None for m in means):
+                continue
+            npos = [sum(1 for m in r["ok"] if rparse(m) > 0) for r in means]
+            step_draws = draws[len(draws) - sum(npos):]
+            p = 0
+            for k in range(nsteps):
+                dd = step_draws[p:p + npos[k]]; p += npos[k]
+                ops.append({"op": "checked_step", "eng": eng, "x": [rstr(v) for v in ss[k][1]], "option": option, "dt": rstr(dt),
+                            "draws": [int(d[3]) for d in dd]})
+                exp.append((ss[k][1], ss[k + 1][1]))
+        else:
+            step_draws = draws[len(draws) - 2 * nsteps:]
+            for k in range(nsteps):
+                u1, u2 = step_draws[2 * k][3], step_draws[2 * k + 1][3]
+                ops.append({"op": "checked_step", "eng": eng, "x": [rstr(v) for v in ss[k][1]], "option": option, "dt": rstr(dt),
+                            "u1": rstr(u1), "L": rstr(math.log(1 / u2))})
+                exp.append((ss[k][1], ss[k + 1][1]))
+        res = M.run(ops)
+        for (x0, x1), r, op in zip(exp, res, ops):
+            if r is None:
+                continue
+            ctx.count("checked_steps_%s_%s" % (option, kind))
+            ctx.case(("checked", i, tuple(x0)), nontrivial=x0 != x1)
+            case = {"op": {k: op[k] for k in op if k != "eng"}, "space": kind, "script": S}
+            if "ok" not in r:
+                ctx.disagree("checked_step", case, {"next_state": x1[:8]}, r, note="the checked model reports a failed access on a valid script")
+                continue
+            mx = [rparse(v) for v in r["ok"]["x"]]
+            if option == "euler":
+                ok = len(mx) == len(x1) and all(close(a, b, mag=abs(c) + 1, rel=1e-9) for a, b, c in zip(x1, mx, x0))
+            else:
+                ok = [frac(v) for v in x1] == mx
+            if not ok:
+                ctx.disagree("checked_step", case, {"next_state": x1[:8]}, {"next_state": [float(v) for v in mx[:8]]})
+
+
+def run(ctx):
+    explore(ctx, ctx.n(105, 3000), ctx.n(24, 600), p_degenerate=0.6, tag="m")
+    if not ctx.violations:
+        checked_correspondence(ctx)
+    ctx.notes.append("partial by nature: engine_never_faults is proved on the checked-access MODEL of the engine (all six algorithms, Init, "
+                     "sampler, exports, lifecycle; validated against the real engine step by step: op checked_step); the compiled "
+                     "engine's memory behaviour is observed with hardened / sanitizer builds on sampled inputs")
+
+
+def search(ctx):
+    """failing-input search (an anchor, a theorem or the correspondence is broken, no failing input known yet): the hardened
+    and the sanitizer builds over a larger set of degenerate shapes, coarse steps and histories than the quick tier, until
+    the time budget is used"""
+    rounds = 0
+    while ctx.time_left() > 40 and not ctx.violations and rounds < 30:
+        ctx.count("search_rounds")
+        explore(ctx, 240, 60, p_degenerate=0.9, tag="x%d_" % rounds, with_model=False, p_coarse=0.5)
+        rounds += 1
+    ctx.notes.append("search(): %d extra rounds of 240 degenerate scripts on the hardened build (60 of them also under ASan/UBSan)" % rounds)
+
+
+def explore(ctx, n, n_asan, p_degenerate=0.6, tag="m", with_model=True, p_coarse=0.3):
+    rng = ctx.rng
     jobs = []
     for i in range(n):
         option = lc.OPTIONS[i % 3]
-        coarse = (option != "gillespie") and rng.random() < 0.3
-        kw = {"degenerate": rng.random() < 0.6, "policy": lc.POLICIES[(i // 3) % 4],
+        coarse = (option != "gillespie") and rng.random() < p_coarse
+        kw = {"degenerate": rng.random() < p_degenerate, "policy": lc.POLICIES[(i // 3) % 4],
               "max_steps": 40 if option != "gillespie" else 12, "space_kind": ["grid", "graph"][(i // 12) % 2] if i % 5 else None}
-        jobs.append(make_job(rng, "m%d" % i, option, coarse=coarse, **kw))
+        jobs.append(make_job(rng, "%s%d" % (tag, i), option, coarse=coarse, **kw))
     res = {}
-    builds = [("plain", jobs), ("hard", jobs), ("asan", jobs[:ctx.n(36, 600)])]
+    builds = [("plain", jobs), ("hard", jobs), ("asan", jobs[:n_asan])]
     for kind, js in builds:
         res[kind] = lc.run_jobs([dict(j) for j in js], kind=kind, chunk=ctx.n(8, 40), parallel=ctx.n(8, 8), stall=ctx.n(15, 60))
     ops, metas = [], []
@@ -155,7 +252,7 @@ def run(ctx):
         if "plain" in hashes and "hard" in hashes and hashes["plain"] != hashes["hard"]:
             ctx.violation("result-depends-on-build", "trajectories differ bitwise between the plain and the assertion-hardened build",
                           case, impl=hashes["hard"], expected=hashes["plain"])
-    answers = ctx.model.run(ops) if ops else []
+    answers = ctx.model.run(ops) if (ops and with_model) else []
     for (job, ob, case), ans in zip(metas, answers):
         if ans is None:
             continue
@@ -165,9 +262,6 @@ def run(ctx):
         d = c09.compare_model(job, ob, ans)
         if d is not None:
             ctx.disagree("lifecycle", case, d[0], d[1])
-    ctx.notes.append("partial by nature: the Lean theorems cover index logic, guards and the allocation state machine of the model; "
-                     "the compiled engine's memory behaviour is observed with hardened / sanitizer builds on sampled inputs")
-    ctx.notes.append("engine_never_faults_partial: no end-to-end checked-access interpreter of the six algorithms (sections 1-4 + registry instead)")
 
 
 def replay(ctx, rec):
